@@ -295,6 +295,11 @@ func (blockchain *Blockchain) DeleteStateVersions(from, to int64) error {
 	return blockchain.stateDeliver.Tree().DeleteVersionsRange(from, to)
 }
 
+// moreThanTwoThirds reports whether voted is strictly more than 2/3 of total, in exact integer arithmetic
+func moreThanTwoThirds(voted, total *big.Int) bool {
+	return new(big.Int).Mul(voted, big.NewInt(3)).Cmp(new(big.Int).Mul(total, big.NewInt(2))) == 1
+}
+
 func (blockchain *Blockchain) isApplicationHalted(height uint64) bool {
 	if blockchain.haltHeight > 0 && height >= blockchain.haltHeight {
 		return true
@@ -312,16 +317,7 @@ func (blockchain *Blockchain) isApplicationHalted(height uint64) bool {
 		}
 	}
 
-	votingResult := new(big.Float).Quo(
-		new(big.Float).SetInt(totalVotedPower),
-		new(big.Float).SetInt(blockchain.totalPower),
-	)
-
-	if votingResult.Cmp(big.NewFloat(votingPowerConsensus)) == 1 {
-		return true
-	}
-
-	return false
+	return moreThanTwoThirds(totalVotedPower, blockchain.totalPower)
 }
 
 // Deprecated
@@ -363,7 +359,7 @@ func (blockchain *Blockchain) isUpdateCommissionsBlockV2(height uint64) []byte {
 		return nil
 	}
 	// calculate total power of validators
-	maxVotingResult := big.NewFloat(0)
+	maxVotedPower := big.NewInt(0)
 
 	var price string
 	for _, commission := range commissions {
@@ -373,17 +369,13 @@ func (blockchain *Blockchain) isUpdateCommissionsBlockV2(height uint64) []byte {
 				totalVotedPower.Add(totalVotedPower, power)
 			}
 		}
-		votingResult := new(big.Float).Quo(
-			new(big.Float).SetInt(totalVotedPower),
-			new(big.Float).SetInt(blockchain.totalPower),
-		)
 
-		if maxVotingResult.Cmp(votingResult) == -1 {
-			maxVotingResult = votingResult
+		if maxVotedPower.Cmp(totalVotedPower) == -1 {
+			maxVotedPower = totalVotedPower
 			price = commission.Price
 		}
 	}
-	if maxVotingResult.Cmp(big.NewFloat(votingPowerConsensus)) == 1 {
+	if moreThanTwoThirds(maxVotedPower, blockchain.totalPower) {
 		return []byte(price)
 	}
 
@@ -396,7 +388,7 @@ func (blockchain *Blockchain) isUpdateNetworkBlockV2(height uint64) (string, boo
 		return "", false
 	}
 	// calculate total power of validators
-	maxVotingResult := big.NewFloat(0)
+	maxVotedPower := big.NewInt(0)
 	var version string
 	for _, v := range versions {
 		totalVotedPower := big.NewInt(0)
@@ -405,17 +397,13 @@ func (blockchain *Blockchain) isUpdateNetworkBlockV2(height uint64) (string, boo
 				totalVotedPower.Add(totalVotedPower, power)
 			}
 		}
-		votingResult := new(big.Float).Quo(
-			new(big.Float).SetInt(totalVotedPower),
-			new(big.Float).SetInt(blockchain.totalPower),
-		)
 
-		if maxVotingResult.Cmp(votingResult) == -1 {
-			maxVotingResult = votingResult
+		if maxVotedPower.Cmp(totalVotedPower) == -1 {
+			maxVotedPower = totalVotedPower
 			version = v.Version
 		}
 	}
-	if maxVotingResult.Cmp(big.NewFloat(votingPowerConsensus)) == 1 {
+	if moreThanTwoThirds(maxVotedPower, blockchain.totalPower) {
 		return version, true
 	}
 
